@@ -369,6 +369,11 @@ func (w *world) checkTx(ob *vh.ObservedBlock, i int, d *txDesc) {
 
 	// (4) vesting accounts: any new one needs a proof that existed before this transaction
 	for _, ch := range diff {
+		if ch.Store == "acc" && len(ch.Key) > 1 && len(ch.Key) != 21 && ch.Key[0] == 0x01 && ch.New != nil && isVesting(accTypeURL(ch.New)) && (ch.Old == nil || !isVesting(accTypeURL(ch.Old))) {
+			// an address that is not 20 bytes long is nobody's externally owned account and has no proof record
+			run.Violation("vesting-account-created-for-address-that-is-not-20-bytes:"+routeClass(d.Route, d.Depth), w.label, wit(map[string]any{"address_bytes": fmt.Sprintf("%x", ch.Key[1:]), "account_type": accTypeURL(ch.New)}))
+			continue
+		}
 		if ch.Store != "acc" || len(ch.Key) != 21 || ch.Key[0] != 0x01 || ch.New == nil {
 			continue
 		}
@@ -456,7 +461,12 @@ func (w *world) checkFinal(ob *vh.ObservedBlock) {
 	w.run.Max("proof_records_in_largest_store", int64(n))
 	for k, v := range d {
 		if strings.HasPrefix(k, "acc\x00\x01") && isVesting(accTypeURL([]byte(v))) {
-			addr := common.BytesToAddress([]byte(k[len("acc\x00\x01"):]))
+			raw := []byte(k[len("acc\x00\x01"):])
+			if len(raw) != 20 {
+				w.run.Violation("final-scan:vesting-account-at-address-that-is-not-20-bytes", w.label, map[string]any{"height": ob.Height, "address_bytes": fmt.Sprintf("%x", raw)})
+				continue
+			}
+			addr := common.BytesToAddress(raw)
 			if d[proofKey(addr)] == "" {
 				w.run.Violation("final-scan:vesting-account-without-proof", w.label, map[string]any{"height": ob.Height, "address": addr.Hex()})
 			}
